@@ -1,5 +1,6 @@
 import Anytree.Drv.Iter
 import Anytree.Drv.Forest
+import Anytree.Drv.Nav
 /-!
 Line-protocol driver: one JSON case per input line, one JSON object per output line:
 `{"mirror": <what the model of the code computes>, "spec": <what the specification demands>}`
@@ -12,6 +13,7 @@ def dispatch (j : Json) : R (Json × Json) := do
   match fam with
   | "iter" => runIter j
   | "forest" => runForest j
+  | "nav" => runNav j
   | f => throw s!"unknown family {f}"
 
 def handle (line : String) : String :=
